@@ -5,12 +5,20 @@ Import ListNotations.
 Require Import FV.Base.Util FV.Gen.C15 FV.C15.Model.
 
 Definition depth_limit : nat := 40.
-Definition step_fuel : nat := 2000.
+(* step budget of every get_module call of the model: the bound proved sufficient for EVERY configuration
+   (LemmasTerm.enough_fuel, theorem C15_get_module_never_loops), written out here because this file does not depend
+   on lemma files; LemmasRun.step_fuel_is_enough proves that it is that bound, C15_correspondence_never_stuck that
+   the flag stuck of the model is never set in a correspondence run.  About 25000 for the generated sizes. *)
+Definition step_fuel (c : cfg) : nat :=
+  let C := S (S (fold_right Nat.max 9 (map (fun bd => 4 * length (d_atts (snd bd)) + 9) (c_static c ++ c_dyn c)))) in
+  let U := 2 * length (c_static c) + 2 * S (length (c_static c) + length (c_dyn c)) in
+  C * ((S depth_limit + 1) * U + S depth_limit + 1).
 
 Definition event_eqb (a b : event) : bool :=
   match a, b with
   | EEarly m, EEarly n | EInit m, EInit n | EStart m, EStart n | EIReads m, EIReads n
-  | EStarted m, EStarted n | EStop m, EStop n | EShutdown m, EShutdown n => Nat.eqb m n
+  | EStarted m, EStarted n | EStop m, EStop n | EShutdown m, EShutdown n
+  | ECWait m, ECWait n | EDoPoll m, EDoPoll n => Nat.eqb m n
   | ESee u i t ok, ESee u' i' t' ok' => Nat.eqb u u' && Nat.eqb i i' && opt_eqb Nat.eqb t t' && Bool.eqb ok ok'
   | EWrite m k, EWrite n j | ERead m k, ERead n j => Nat.eqb m n && Nat.eqb k j
   | EReady a, EReady b => Bool.eqb a b
@@ -43,7 +51,7 @@ Definition outcome_of (s : sys) : nat :=
   | _ => 3
   end.
 
-Definition model_run (c : case) : sys := started depth_limit step_fuel (c_cfg c) (c_sched c).
+Definition model_run (c : case) : sys := started depth_limit (step_fuel (c_cfg c)) (c_cfg c) (c_sched c).
 Definition model_final (c : case) : node := shutdown (model_run c) (c_order c).
 
 Definition check_case (c : case) : bool :=
